@@ -18,7 +18,11 @@ CaseOf(c) ==
                    [Entries(c)[i] EXCEPT !.fl = SetToSeq(@)]] \o <<>>,
     links   |-> IF c.linkm = "cus" THEN CustomLinks ELSE <<>>,      \* empty: builder default
     maskcfg |-> IF c.maskm = "cus" THEN CustomMasks ELSE <<>>,      \* empty: builder default
-    maskchk |-> Masks(c) ]
+    maskchk |-> Masks(c),
+    \* below every shared-propagation source the host mounts a file system at run time: the probe tries there too
+    dyn     |-> SelectSeq([i \in DOMAIN Tup(Entries(c)) |-> Entries(c)[i].tgt \o <<"dyn">>] \o <<>>,
+                          LAMBDA q : \E i \in DOMAIN Entries(c) : Entries(c)[i].src \in SharedSrc
+                                                                  /\ q = Entries(c)[i].tgt \o <<"dyn">>) ]
 
 ForkOf(t) == [impl |-> "fork", kinds |-> t, linkm |-> "none", maskm |-> "none", devnull |-> FALSE]
 ContOf(t, o) == [impl |-> "cont", kinds |-> t, linkm |-> o[1], maskm |-> o[2], devnull |-> o[3]]
